@@ -569,6 +569,21 @@ def check_cell(li, ai):
         return f"unitcell_from_vectors(vectors_from_unitcell({lengths}, {angles})) = {np.asarray(back).tolist()}"
     if bool(struc.is_orthogonal(box)) != (angles == (90, 90, 90)):
         return f"is_orthogonal = {bool(struc.is_orthogonal(box))} for angles {angles}"
+    # cell lengths and angles are those of the box vectors in ANY orientation (a box rotated with the whole system, or
+    # with permuted / mirrored axes, has the same cell); converting back gives a congruent box
+    for axis, ang in (((0.0, 0.0, 1.0), 0.7), ((1.0, 2.0, -1.0), 2.1), ((0.3, -1.0, 0.2), np.pi), ((1.0, 0.0, 0.0), -1.3)):
+        u = np.array(axis) / np.linalg.norm(axis)
+        K = np.array([[0, -u[2], u[1]], [u[2], 0, -u[0]], [-u[1], u[0], 0]])
+        R = np.eye(3) + np.sin(ang) * K + (1 - np.cos(ang)) * (K @ K)
+        rbox = (box.astype(np.float64) @ R.T).astype(np.float32)
+        back = struc.unitcell_from_vectors(rbox)
+        if not np.allclose(back, list(lengths) + [al, be, ga], atol=2e-3):
+            return f"unitcell_from_vectors of the cell {lengths} {angles} rotated by {ang:.2f} about {axis} = {np.asarray(back).tolist()}"
+        again = struc.vectors_from_unitcell(*back)
+        G1 = rbox.astype(np.float64) @ rbox.astype(np.float64).T
+        G2 = again.astype(np.float64) @ again.astype(np.float64).T
+        if not np.allclose(G1, G2, atol=2e-3 * float(max(lengths)) ** 2):
+            return f"vectors_from_unitcell(unitcell_from_vectors(rotated box)) is not congruent to the box (cell {lengths} {angles})"
     return None
 
 
